@@ -249,9 +249,14 @@ def _inplace_worker(args):
             continue
         except Exception:  # noqa - judged by the main exploration
             continue
+        def warm(c):
+            try:
+                c.compose()         # the copy is used (composed) before it is edited: a cached encoding must not survive
+            except Exception:  # noqa
+                pass
         try:
-            b = inplace()
-        except nc + (AttributeError,):    # frozen nested object: no in-place history exists
+            b = inplace(warm)
+        except nc + (AttributeError,):    # frozen nested object / refused edit: no in-place history exists
             acc.count('inplace_not_possible')
             continue
         acc.state(core.h64('inplace', qn, repr(canon.dump(b))))
